@@ -392,6 +392,10 @@ func runC19(r *Run) {
 			body = "<!DOCTYPE html>\n<html" + Pick(rr, []string{"", ` lang="en"`}) + "><head><title>" + c19Text(rr) + "</title><meta charset=\"utf-8\"></head><body" + c19Attrs(rr) + ">" + body + "</body></html>\n"
 		case 3:
 			body = Pick(rr, []string{"<!doctype html>", "<!DOCTYPE html>", "<!DocType HTML>"}) + "\n<html><head><title>t</title>" + Pick(rr, []string{"", "<noscript><link rel=\"stylesheet\" href=\"a.css?x=1&amp;y=2\"></noscript>"}) + "</head><body>" + body + "</body></html>\n"
+		case 6:
+			// front matter, then a full document (a page that names its layout data and is a whole page itself)
+			doc := Pick(rr, []string{"<!DOCTYPE html>\n", "<!doctype html>", ""}) + "<html" + Pick(rr, []string{"", ` lang="en"`}) + "><head><title>t</title></head><body" + c19Attrs(rr) + ">" + body + "</body></html>\n"
+			body = Pick(rr, []string{"---\ntitle: x\n---\n", "---\ntitle: x\nlayout: none\n---\n\n", "---\r\ntitle: x\r\n---\r\n"}) + doc
 		case 4:
 			fence := Pick(rr, []string{"---\r", "--- ", "----", "--- # end", "---"})
 			nlc := "\n"
